@@ -119,7 +119,11 @@ func runReplay(c *vlib.Ctx, r replay) {
 		}
 		doToURL(c, cs, true)
 	case "list":
-		doList(c, r.Fn, fromNames(r.A), true)
+		if r.Fn == "seq" {
+			doSeq(c, fromNames(r.A))
+		} else {
+			doList(c, r.Fn, fromNames(r.A), true)
+		}
 	case "eq":
 		doEq(c, fromNames(r.A), fromNames(r.B), true)
 	case "strs", "peers", "netaddr":
